@@ -71,7 +71,7 @@ pub fn run(args: &Args, r: &mut Report) {
         }
         // the device may stay down for a while (longer than the dictated interval, too)
         if rng.chance(1, 3) {
-            case.restart_gap_ns = *rng.pick(&[60i128, 3_600, 7_200, 86_400, 200_000]) * 1_000_000_000;
+            case.restart_gap_ns = *rng.pick(&[60i128, 3_600, 7_200, 86_400, 200_000, -3_600, -100_000]) * 1_000_000_000;
             case.shape.push("downtime".into());
         }
         let next = case.setup.clone();
